@@ -32,6 +32,7 @@ type elem struct {
 	Data string `json:"data"` // ok | bad
 	Out  string `json:"out"`  // succ | insufficient | command | notfound | other
 	Bad  int    `json:"bad"`  // which malformed body
+	Opt  int    `json:"opt"`  // optional fields of a well-formed body: 0 spelled with their default, 1 set, 2 absent
 }
 
 type input struct {
@@ -99,14 +100,30 @@ func dataFor(i int, e elem) string {
 	}
 	switch coqAct(e.Act) {
 	case "ACreate":
+		switch e.Opt % 3 {
+		case 1:
+			return fmt.Sprintf(`{"postings":[{"source":"world","destination":"bank","amount":100,"asset":"USD"}],"reference":"e%d","metadata":{"m":"%d"}}`, i, i)
+		case 0:
+			return fmt.Sprintf(`{"postings":[{"source":"world","destination":"bank","amount":100,"asset":"USD"}],"reference":"e%d","metadata":{}}`, i)
+		}
 		return fmt.Sprintf(`{"postings":[{"source":"world","destination":"bank","amount":100,"asset":"USD"}],"reference":"e%d"}`, i)
 	case "ARevert":
+		switch e.Opt % 3 {
+		case 1:
+			return fmt.Sprintf(`{"id": %d, "force": true}`, i)
+		case 2:
+			return fmt.Sprintf(`{"id": %d}`, i)
+		}
 		return fmt.Sprintf(`{"id": %d, "force": false}`, i)
 	case "AAddMeta":
-		if i%2 == 0 {
-			return fmt.Sprintf(`{"targetType":"ACCOUNT","targetId":"acc","metadata":{"e":"%d"}}`, i)
+		extra := ""
+		if e.Opt%3 == 1 {
+			extra = fmt.Sprintf(`,"x":"%d"`, i)
 		}
-		return fmt.Sprintf(`{"targetType":"TRANSACTION","targetId":7,"metadata":{"e":"%d"}}`, i)
+		if i%2 == 0 {
+			return fmt.Sprintf(`{"targetType":"ACCOUNT","targetId":"acc","metadata":{"e":"%d"%s}}`, i, extra)
+		}
+		return fmt.Sprintf(`{"targetType":"TRANSACTION","targetId":7,"metadata":{"e":"%d"%s}}`, i, extra)
 	case "ADelMeta":
 		if i%2 == 0 {
 			return fmt.Sprintf(`{"targetType":"ACCOUNT","targetId":"acc","key":"e%d"}`, i)
@@ -130,6 +147,42 @@ type obsCall struct {
 	Idx int
 	Act string
 	IK  string
+	Own string // "" or: which parameter of the call is not what the element alone defines
+}
+
+// ownRequest: does the backend call carry exactly the optional parameters its own element spells out?
+func ownRequest(c fakeapi.WriteCall, i int, e elem) string {
+	switch c.Kind {
+	case "REVERT_TRANSACTION":
+		if c.Force != (e.Opt%3 == 1) {
+			return fmt.Sprintf("revert:force=%v", c.Force)
+		}
+	case "ADD_METADATA":
+		want := map[string]string{"e": fmt.Sprint(i)}
+		if e.Opt%3 == 1 {
+			want["x"] = fmt.Sprint(i)
+		}
+		if len(c.Meta) != len(want) {
+			return fmt.Sprintf("add-metadata:metadata=%v", c.Meta)
+		}
+		for k, v := range want {
+			if c.Meta[k] != v {
+				return fmt.Sprintf("add-metadata:metadata=%v", c.Meta)
+			}
+		}
+	case "CREATE_TRANSACTION":
+		if c.Script == nil {
+			return ""
+		}
+		if e.Opt%3 == 1 {
+			if len(c.Script.Metadata) != 1 || c.Script.Metadata["m"] != fmt.Sprint(i) {
+				return fmt.Sprintf("create:metadata=%v", c.Script.Metadata)
+			}
+		} else if len(c.Script.Metadata) != 0 {
+			return fmt.Sprintf("create:metadata=%v", c.Script.Metadata)
+		}
+	}
+	return ""
 }
 type obsRes struct {
 	Type string
@@ -218,10 +271,14 @@ func tagOfErr(desc string) int {
 	return -1
 }
 
-func callsOf(l *fakeapi.Ledger) []obsCall {
+func callsOf(l *fakeapi.Ledger, in input) []obsCall {
 	var cs []obsCall
 	for _, c := range l.Writes {
-		cs = append(cs, obsCall{idxOf(c), c.Kind, c.Params.IdempotencyKey})
+		oc := obsCall{Idx: idxOf(c), Act: c.Kind, IK: c.Params.IdempotencyKey}
+		if oc.Idx >= 0 && oc.Idx < len(in.Els) && in.Els[oc.Idx].Data != "bad" {
+			oc.Own = ownRequest(c, oc.Idx, in.Els[oc.Idx])
+		}
+		cs = append(cs, oc)
 	}
 	return cs
 }
@@ -239,7 +296,7 @@ func runDirect(in input) (ob observation, panicked string) {
 	}
 	l := backendFor(in)
 	res, flag, err := v2.ProcessBulk(context.Background(), l, b, in.Cont)
-	ob.Calls = callsOf(l)
+	ob.Calls = callsOf(l, in)
 	ob.Flag, ob.Err, ob.NilRes = flag, err != nil, res == nil
 	for _, r := range res {
 		o := obsRes{Type: r.ResponseType, Code: r.ErrorCode, Tag: -1}
@@ -265,7 +322,7 @@ func runHTTP(in input) (ob observation, raw string) {
 	rec := httptest.NewRecorder()
 	router.ServeHTTP(rec, req)
 	ob.Status = rec.Code
-	ob.Calls = callsOf(l)
+	ob.Calls = callsOf(l, in)
 	raw = rec.Body.String()
 	var resp struct {
 		Data []struct {
@@ -336,6 +393,14 @@ func oracle(r *vx.Run, in input, ob observation, via string) {
 		last = c.Idx
 		if c.Idx >= 0 && c.Idx < len(in.Els) && (c.Act != in.Els[c.Idx].Act || c.IK != in.Els[c.Idx].IK) {
 			r.FailSized("call-content:"+via+":"+sigIn(), in, fmt.Sprintf("call %v does not match element", c), len(in.Els))
+			return
+		}
+		if c.Own != "" {
+			kind := strings.SplitN(c.Own, "=", 2)[0]
+			r.FailSized("own-request:"+via+":"+kind, in, fmt.Sprintf("element %d reaches the backend with %s, which is not what the element says", c.Idx, c.Own), len(in.Els))
+			if strings.HasPrefix(kind, "revert:") {
+				r.FailP("C10", "bulk:revert-element-runs-with-a-force-flag-it-does-not-carry:"+via, in, fmt.Sprintf("element %d: %s", c.Idx, c.Own), len(in.Els))
+			}
 			return
 		}
 	}
@@ -451,7 +516,7 @@ func one(r *vx.Run, in input) {
 }
 
 func genElem(g *vx.Rng) elem {
-	e := elem{Act: actions[g.Intn(4)], Data: "ok", Out: "succ", Bad: g.Intn(12)}
+	e := elem{Act: actions[g.Intn(4)], Data: "ok", Out: "succ", Bad: g.Intn(12), Opt: g.Intn(3)}
 	if g.Chance(1, 6) {
 		e.Act = unknowns[g.Intn(len(unknowns))]
 	}
